@@ -61,8 +61,20 @@ def parseNamedKeys (xs : Array Json) : Except String (List (String × Key)) :=
       return (← a[0].getStr?, ← parseKey a[1])
     else throw s!"bad named key {it}"
 
+/-- the items of a dict output key `{"dk": [[record_key, key_into_the_output], ..]}`: the record key
+is a bare string (a name) or any key object -/
+def parseDictItems (xs : Array Json) : Except String (List (Key × Key)) :=
+  xs.toList.mapM fun it => do
+    let a ← it.getArr?
+    if h : a.size = 2 then
+      let rk ← match a[0] with
+        | .str s => pure (Key.name s)
+        | k => parseKey k
+      return (rk, ← parseKey a[1])
+    else throw s!"bad dict key item {it}"
+
 def parseOutKey (j : Json) : Except String OutKey := do
-  if let .ok (.arr items) := j.getObjVal? "dk" then return .dict (← parseNamedKeys items)
+  if let .ok (.arr items) := j.getObjVal? "dk" then return .dict (← parseDictItems items)
   return .key (← parseKey j)
 
 def parseInSpec (j : Json) : Except String Build.InSpec := do
@@ -129,9 +141,12 @@ def parseSpec (j : Json) : Except String Build.Spec := do
 
 /-- the data source on the wire: `items`, `fail` = `[[index, kind], ..]` (reading that element
 raises), `src_ignore` (`SequenceDataSource(ignore_error=True)`: `iter_ignore_error` around the
-range iterator), `gen` (a Python generator: dead after its first exception) -/
+range iterator), `kind` = `gen` (a Python generator: dead after its first exception; every other
+kind — `list`, `seq`, `iter` — is resumable: the events as given) -/
 def parseSrc (j : Json) : Except String (List (Ev Val)) := do
   let items ← (← Driver.getArr j "items").toList.mapM parseVal
+  -- `twice`: the same record objects are delivered a second time (values: the list twice)
+  let items := if (j.getObjValAs? Bool "twice").toOption.getD false then items ++ items else items
   let fails ← match j.getObjVal? "fail" with
     | .ok (.arr xs) => xs.toList.mapM fun it => do
         let a ← it.getArr?
@@ -144,7 +159,8 @@ def parseSrc (j : Json) : Except String (List (Ev Val)) := do
     | some (_, k) => .error { kind := k }
     | none => .ok v
   let srcIgnore := (j.getObjValAs? Bool "src_ignore").toOption.getD false
-  let gen := (j.getObjValAs? Bool "gen").toOption.getD false
+  let gen := (j.getObjValAs? Bool "gen").toOption.getD false ||
+    (j.getObjValAs? String "kind").toOption == some "gen"
   let evs := if gen then cutAfterErr evs else evs
   return if srcIgnore then ignoreErr none evs else evs
 
